@@ -10,7 +10,7 @@ from props.common import *
 from vfw import streams as vs
 
 BOUNDS = ("datetime round trip: calendar fields from a boundary corpus (8 instants incl. 1950/2049 pivots, leap day, year 1, year 9999), millisecond ms in "
-          "[0, 999] symbolic, UTC offset in whole minutes in [-840, 840] symbolic or absent; GeneralizedTime and UTCTime; CER/DER canonical encoder: "
+          "[0, 999] symbolic, UTC offset in whole minutes in [-840, 840] (thorough: every offset below 24 h, [-1439, 1439]) symbolic or absent; GeneralizedTime and UTCTime; CER/DER canonical encoder: "
           "fraction of 0..6 symbolic digits, separator {none, '.', ','}, suffix {Z, +0130, -0200, none}, with/without seconds")
 OUTSIDE = "calendar arithmetic of datetime.strptime/strftime themselves (C library); fractions longer than 6 digits; years outside the corpus"
 ASSUMPTIONS = ["while exploring, the name `datetime` inside pyasn1.type.useful is replaced by a shim: strptime runs the real one on the (by then concrete) calendar text and "
@@ -194,10 +194,10 @@ def cer_canon(kind, der, base, flen, d1, d2, d3, sep, suffix, d4=0, d5=0, d6=0):
 
 
 OBLIGATIONS = [
-    Obl("dt_roundtrip_gt", dt_roundtrip, {"kind": C(0), "cal": I(0, 9), "ms": I(0, 999), "has_off": B, "off": I(-840, 840)},
+    Obl("dt_roundtrip_gt", dt_roundtrip, {"kind": C(0), "cal": I(0, 9), "ms": I(0, 999), "has_off": B, "off": I(-840, 840)}, thorough={"off": I(-1439, 1439)},
         shards=[{"cal": C(c)} for c in range(10)], budget=120,
         doc="GeneralizedTime.fromDateTime -> asDateTime: same millisecond, same whole-minute offset, for every ms and offset in range"),
-    Obl("dt_roundtrip_utc", dt_roundtrip, {"kind": C(1), "cal": I(0, len(CAL_UTC) - 1), "ms": C(0), "has_off": B, "off": I(-840, 840)},
+    Obl("dt_roundtrip_utc", dt_roundtrip, {"kind": C(1), "cal": I(0, len(CAL_UTC) - 1), "ms": C(0), "has_off": B, "off": I(-840, 840)}, thorough={"off": I(-1439, 1439)},
         shards=[{"cal": C(c)} for c in range(len(CAL_UTC))], budget=120, doc="UTCTime.fromDateTime -> asDateTime (second precision)"),
     Obl("dt_x680", dt_x680, {"cal": I(0, 2), "ms": I(0, 999)}, budget=60,
         doc="fromDateTime() text read per X.680 denotes the datetime's instant"),
